@@ -12,6 +12,7 @@ import (
 
 	"verifharness/internal/csets"
 	"verifharness/internal/inref"
+	"verifharness/internal/live"
 	"verifharness/internal/pbt"
 )
 
@@ -162,6 +163,22 @@ func prop(c Case) error {
 	return nil
 }
 
+var multiCache = map[string][]csets.Char{}
+
+func multiOf(cs string) []csets.Char {
+	if m, ok := multiCache[cs]; ok {
+		return m
+	}
+	var multi []csets.Char
+	for _, ch := range csets.Repertoire(cs) {
+		if len(ch.B) > 1 {
+			multi = append(multi, ch)
+		}
+	}
+	multiCache[cs] = multi
+	return multi
+}
+
 func genCase(t *rapid.T) Case {
 	c := Case{Entry: rapid.SampledFrom(entries).Draw(t, "entry")}
 	c.Charset = rapid.SampledFrom(csets.Stateless).Draw(t, "charset")
@@ -174,12 +191,7 @@ func genCase(t *rapid.T) Case {
 	}
 	rep := csets.Repertoire(c.Charset)
 	// multi-byte characters are the interesting ones
-	var multi []csets.Char
-	for _, ch := range rep {
-		if len(ch.B) > 1 {
-			multi = append(multi, ch)
-		}
-	}
+	multi := multiOf(c.Charset)
 	n := rapid.IntRange(1, 8).Draw(t, "n")
 	for i := 0; i < n; i++ {
 		k := rapid.IntRange(0, 9).Draw(t, "kind")
@@ -346,12 +358,100 @@ func sweep(t *testing.T) {
 	pbt.Exhaustive("every printable BMP character each stateless charset can represent (plus astral samples for UTF-8/GB18030), once, in 61-byte reads (and byte-at-a-time reads: all blocks in thorough, every 8th in quick)")
 }
 
+// ---------------------------------------------------------------- through the real read pipeline
+
+// LiveCase: a longer text (more characters than both internal queues hold)
+// delivered in many tty reads that end at character boundaries, through a real
+// screen with its goroutines, the application polling only afterwards.
+type LiveCase struct {
+	Entry   string `json:"entry"`
+	Charset string `json:"charset"`
+	Runes   []rune `json:"runes"`
+	PerRead []int  `json:"chars_per_read"`
+	Paste   bool   `json:"paste"`
+	Defer   bool   `json:"defer_poll"`
+}
+
+func genLive(t *rapid.T) LiveCase {
+	c := LiveCase{Entry: rapid.SampledFrom([]string{"xterm", "linux", "rxvt-unicode", "vt220", "screen"}).Draw(t, "entry")}
+	c.Charset = rapid.SampledFrom([]string{"UTF-8", "UTF-8", "EUC-JP", "GBK", "KOI8-R", "ISO8859-1", "Big5", "SHIFT_JIS", "GB18030"}).Draw(t, "charset")
+	rep := csets.Repertoire(c.Charset)
+	n := rapid.IntRange(1, 100).Draw(t, "n")
+	for i := 0; i < n; i++ {
+		c.Runes = append(c.Runes, rep[rapid.IntRange(0, len(rep)-1).Draw(t, "ri")].R)
+	}
+	left := n
+	for left > 0 {
+		k := rapid.IntRange(1, 5).Draw(t, "per")
+		if k > left {
+			k = left
+		}
+		c.PerRead = append(c.PerRead, k)
+		left -= k
+	}
+	c.Paste = rapid.IntRange(0, 3).Draw(t, "paste") == 0
+	c.Defer = rapid.IntRange(0, 3).Draw(t, "defer") != 0
+	return c
+}
+
+func liveProp(c LiveCase) error {
+	e, err := info(c.Entry)
+	if err != nil {
+		return err
+	}
+	var reads [][]byte
+	var want []inref.Ev
+	if c.Paste && e.paste {
+		reads = append(reads, []byte("\x1b[200~"))
+		want = append(want, inref.Ev{Kind: "paste", Start: true})
+	}
+	i := 0
+	for _, k := range c.PerRead {
+		var rd []byte
+		for j := 0; j < k && i < len(c.Runes); j++ {
+			b, ok := csets.Encode(c.Charset, c.Runes[i])
+			if !ok {
+				return fmt.Errorf("harness: U+%04X not in %s", c.Runes[i], c.Charset)
+			}
+			rd = append(rd, b...)
+			want = append(want, inref.Ev{Kind: "key", Key: int(tcell.KeyRune), Rune: c.Runes[i]})
+			i++
+		}
+		reads = append(reads, rd)
+	}
+	if c.Paste && e.paste {
+		reads = append(reads, []byte("\x1b[201~"))
+		want = append(want, inref.Ev{Kind: "paste", Start: false})
+	}
+	got, err := live.RunReads(e.ti, c.Charset, reads, c.Defer, len(want))
+	if err != nil {
+		return err
+	}
+	if !inref.Equal(got, want) {
+		k := 0
+		for k < len(got) && k < len(want) && got[k] == want[k] {
+			k++
+		}
+		g, w := "<none>", "<none>"
+		if k < len(got) {
+			g = got[k].String()
+		}
+		if k < len(want) {
+			w = want[k].String()
+		}
+		return fmt.Errorf("%s/%s: %d characters in %d reads (polling deferred: %v) through the real screen: %d events, want %d; first difference at %d: got %s want %s", c.Entry, c.Charset, len(c.Runes), len(reads), c.Defer, len(got), len(want), k, g, w)
+	}
+	return nil
+}
+
 func TestProp(t *testing.T) {
 	defer pbt.Recover(t)
-	pbt.Describe("text: rapid strings of 1-8 characters drawn from the charset's repertoire (multi-byte characters favoured) with focus reports interspersed, optionally wrapped in paste brackets, over 24 stateless charsets x 16 entries x read partitions (incl. every byte alone), decoded by the production parser (synchronous verif hook with selectable charset); expected: one rune key event per character in order, paste start/end markers around, focus events in position, nothing else, no byte left. repertoire: every character of every charset once. Non-trivial = a cut strictly inside a multi-byte character; distinct = hash of the case.",
+	pbt.Describe("text: rapid strings of 1-8 characters drawn from the charset's repertoire (multi-byte characters favoured) with focus reports interspersed, optionally wrapped in paste brackets, over 24 stateless charsets x 16 entries x read partitions (incl. every byte alone), decoded by the production parser (synchronous verif hook with selectable charset); expected: one rune key event per character in order, paste start/end markers around, focus events in position, nothing else, no byte left. repertoire: every character of every charset once. live-text: up to 100 characters (more than both internal queues hold) delivered in many tty reads ending at character boundaries through a real screen with its input and main goroutines, polling deferred until the pipeline is saturated. Non-trivial = a cut strictly inside a multi-byte character; distinct = hash of the case.",
 		"repertoire of a charset = printable BMP characters that an independently instantiated x/text encoder encodes and a fresh decoder decodes back (astral samples for UTF-8/GB18030)",
 		"on entries without bracketed-paste support, text wrapped in paste brackets is only required to terminate cleanly (no panic, nothing left buffered)",
 		"ISO-2022-JP and HZ-GB2312 are excluded as the statement says (escape-driven 7-bit encodings)")
 	sweep(t)
 	pbt.Check(t, "text", pbt.Pick(40000, 400000), pbt.Spec[Case]{Gen: genCase, Prop: prop, NonTrivial: nonTrivial, Classes: classes})
+	pbt.Check(t, "live-text", pbt.Pick(150, 3000), pbt.Spec[LiveCase]{Gen: genLive, Prop: liveProp,
+		NonTrivial: func(c LiveCase) bool { return len(c.Runes) > 25 && len(c.PerRead) > 3 && c.Defer && csets.MultiByte(c.Charset) }})
 }
